@@ -170,6 +170,7 @@ type Case struct {
 	StartDown []int   `json:"startDown"`
 	BadInit   string  `json:"badInit,omitempty"` // construct with invalid options first (must fail and leave nothing behind)
 	MinSize   int     `json:"minSize,omitempty"` // channel pool minSize of the gRPC-GCP config handed to GCPMultiEndpoint (0 = absent)
+	InPlace   bool    `json:"inPlace,omitempty"` // the caller keeps one options object and edits it in place between updates
 	MaxSize   int     `json:"maxSize,omitempty"`
 	Init      Options `json:"init"`
 	Ops       []Op    `json:"ops"`
@@ -204,6 +205,7 @@ type world struct {
 	up          map[string]bool
 	m0          int
 	delayed     map[string]bool // MultiEndpoints created with a recovery timeout or switching delay follow with a delay
+	callerOpts  *grpcgcp.GCPMultiEndpointOptions
 }
 
 type failure struct{ f *Fail }
@@ -447,6 +449,35 @@ func (w *world) checkPools(what string) {
 	}
 }
 
+// buildFor returns the options to pass: a fresh object, or (in-place mode) the caller's single object
+// with its map edited in place.
+func (o *Options) buildFor(w *world, inPlace bool) (*grpcgcp.GCPMultiEndpointOptions, map[string][]string, string) {
+	fresh, model, def := o.build(w)
+	if !inPlace {
+		return fresh, model, def
+	}
+	if w.callerOpts == nil {
+		w.callerOpts = fresh
+		return fresh, model, def
+	}
+	w.labels["options-object-edited-in-place"]++
+	co := w.callerOpts
+	for k := range co.MultiEndpoints {
+		if _, ok := fresh.MultiEndpoints[k]; !ok {
+			delete(co.MultiEndpoints, k)
+		}
+	}
+	for k, v := range fresh.MultiEndpoints {
+		if old, ok := co.MultiEndpoints[k]; ok && old != nil {
+			old.Endpoints = v.Endpoints // the MultiEndpointOptions object is reused as well
+		} else {
+			co.MultiEndpoints[k] = v
+		}
+	}
+	co.Default = fresh.Default
+	return co, model, def
+}
+
 func (o *Options) build(w *world) (*grpcgcp.GCPMultiEndpointOptions, map[string][]string, string) {
 	mes := map[string]*multiendpoint.MultiEndpointOptions{}
 	model := map[string][]string{}
@@ -630,7 +661,7 @@ func Run(c *Case, props map[string]bool) (res Result) {
 			w.dialed = map[string][]*grpc.ClientConn{}
 		}
 	}
-	o, model, def := c.Init.build(w)
+	o, model, def := c.Init.buildFor(w, c.InPlace)
 	w.failAt, w.dialsInCall = 0, 0
 	live0s := map[string]int{}
 	for n, e := range all {
@@ -690,7 +721,7 @@ func Run(c *Case, props map[string]bool) (res Result) {
 			if op.Opts == nil {
 				continue
 			}
-			o, model, def := op.Opts.build(w)
+			o, model, def := op.Opts.buildFor(w, c.InPlace)
 			before := map[string]int{}
 			for e, l := range w.dialed {
 				before[e] = len(l)
